@@ -10,7 +10,7 @@ let count_tags (l : z list) =
   List.iter (fun t -> let t = int_of_z t in
     Hashtbl.replace cov t (1 + (try Hashtbl.find cov t with Not_found -> 0))) l
 
-let fuel : nat = let rec mk n acc = if n = 0 then acc else mk (n - 1) (S acc) in mk 200000 O
+let fuel : nat = let rec mk n acc = if n = 0 then acc else mk (n - 1) (S acc) in mk 20000 O
 
 let peer_byte (k : int) : int = (((7 * (((k mod 253) + 253) mod 253)) + 3) mod 253)
 let app_byte (i : int) : int = i mod 251
@@ -57,6 +57,7 @@ let ret_bytes (l : z list) : string =
   Printf.sprintf "%d %08x %s" (List.length l) (fnv l) (hex_of_bytes (take 8 l))
 
 exception Model_panic
+exception Model_livelock
 
 let () =
   let want_cov = Array.length Sys.argv > 1 && Sys.argv.(1) = "cov" in
@@ -164,8 +165,8 @@ let () =
              let budget = opt_z (kv rest "b") in
              let (((s', ps), tags), fin) = unwrap (iface_poll_egress fuel (ctx ()) !sock budget) in
              sock := s'; count_tags tags;
-             List.iter (fun p -> print_string (tx_line p); print_newline ()) ps;
-             if not fin then print_string "FUEL\n"
+             if (not fin) && budget = None then raise Model_livelock;
+             List.iter (fun p -> print_string (tx_line p); print_newline ()) ps
          | _ -> failwith ("bad op " ^ op));
         let s = !sock in
         (match iface_poll_at (ctx ()) s with
@@ -182,7 +183,8 @@ let () =
                   else if us mod 1000 = 0 then Printf.printf "pollat %d\n" (us / 1000)
                   else Printf.printf "pollat %d.%03d\n" (us / 1000) (us mod 1000))
          | _ -> dead := true; print_string "obs PANIC\n")
-      with Model_panic -> dead := true; print_string "ret PANIC\n") ops);
+      with Model_panic -> dead := true; print_string "ret PANIC\n"
+         | Model_livelock -> dead := true; print_string "ret LIVELOCK\n") ops);
   if want_cov then begin
     let l = Hashtbl.fold (fun k v acc -> (k, v) :: acc) cov [] in
     let l = List.sort compare l in
